@@ -1,4 +1,5 @@
 import IceProofs.UdpMuxSim
+import IceProofs.UniMuxSim
 /-!
 # C12 — UDP mux delivers each datagram to the right agent and to no other
 
@@ -229,5 +230,212 @@ example : 0 < (after [.getConn uA false, .writeTo 0 x4, .removeByUfrag uA]).ncon
 example : endpoint x4 = endpoint x4mapped := by decide
 example : endpoint { ip := { is4 := false, hi := 18338657682652659712, lo := 1, zone := [101, 48] }, port := 1 }
     ≠ endpoint { ip := { is4 := false, hi := 18338657682652659712, lo := 1, zone := [101, 49] }, port := 1 } := by decide
+
+/-! # The universal mux (`UniversalUDPMuxDefault`, udp_mux_universal.go)
+
+Model `IceModel.UniMux` (tied to the code by the correspondence check `udpmuxuni`): the embedded mux of the
+theorems above plus the per-server table of `GetXORMappedAddr`, the calls in flight and a virtual clock.
+All theorems quantify over ALL sequences `ops : List UOp` (operations of the embedded mux, datagrams of every
+STUN class / transaction id / with, without or with a malformed XOR-MAPPED-ADDRESS, `GetConnForURL`,
+`GetXORMappedAddr` calls with any deadline, passage of time) and every cache TTL. -/
+
+open IceModel.UniMux IceProofs.UniMux
+open IceSpec.C12Uni (UState Verdict answerOf)
+
+/-- model state of the universal mux after `ops` -/
+def uafter (ttl : Nat) (ops : List UOp) : UMux := (IceModel.UniMux.run (IceModel.UniMux.init ttl) ops).1
+/-- trace `(operation, output)` of `ops` -/
+def utrace (ttl : Nat) (ops : List UOp) : List (UOp × UOut) := (IceModel.UniMux.run (IceModel.UniMux.init ttl) ops).2
+/-- history state of the universal-mux monitor after the trace of `ops` -/
+def uhist (ttl : Nat) (ops : List UOp) : UState := IceSpec.C12Uni.stateAfter UState.init (utrace ttl ops)
+
+/-- **the layer never touches the embedded mux.** After any operation sequence the embedded mux is in the
+state the plain mux reaches on the projected sequence (datagrams stripped of what only the layer looks at,
+`GetConnForURL(u, url)` as `GetConn(u ++ url)`, discovery calls and clock ticks dropped): every theorem above
+holds of it verbatim — in particular `C12_faithful`, `C12_after_removal`, `C12_canonical`. -/
+theorem C12_uni_embedded (ttl : Nat) (ops : List UOp) : (uafter ttl ops).base = after (projAll ops) :=
+  run_base ops (IceModel.UniMux.init ttl)
+
+/-- The invariant of the embedded mux, and of the layer's own state (`XInv`): table keys are canonical
+addresses for which `GetXORMappedAddr` was called; an entry, once created, never disappears; an entry is
+pending iff its channel is open; every blocked call hangs on the pending entry of its server and its timer
+lies in the future (no call can block for ever, none waits on a dead entry). -/
+theorem C12_uni_invariant (ttl : Nat) (ops : List UOp) : Inv (uafter ttl ops).base ∧ XInv (uafter ttl ops) :=
+  ⟨by rw [C12_uni_embedded]; exact C12_invariant _, xinv_run ops _ (xinv_init ttl)⟩
+
+example : XInv (IceModel.UniMux.init 0) := xinv_init 0
+
+/-- **dispatch on the universal mux.** Whatever the layer does with a datagram (any class, transaction id,
+attribute), the datagram is handed to exactly the connection THE RULE names on the history of the embedded
+mux — also when it comes from a STUN server's address — and the embedded mux moves as the plain mux does:
+nothing is diverted, nothing is swallowed. -/
+theorem C12_uni_dispatch (ttl : Nat) (ops : List UOp) (src : Addr) (k : Kind) (x : XView) (pid : Nat) :
+    (IceModel.UniMux.step (uafter ttl ops) (.inbound src k x pid)).2.main =
+      .base (match expected (hist (projAll ops)) src k with
+             | some c => .delivered c
+             | none => .dropped)
+    ∧ (IceModel.UniMux.step (uafter ttl ops) (.inbound src k x pid)).1.base
+        = (step (after (projAll ops)) (.inbound src k pid)).1 := by
+  constructor
+  · show (IceModel.UniMux.inbound _ src k x pid).2.main = _
+    rw [inbound_main, C12_uni_embedded]
+    exact congrArg UMain.base (C12_dispatch (projAll ops) src k pid).1
+  · show (IceModel.UniMux.inbound _ src k x pid).1.base = _
+    rw [inbound_base, C12_uni_embedded]; rfl
+
+/-- **the interception rule.** The layer takes a datagram (records its mapped address) iff the mux is open,
+the datagram is a decodable STUN message carrying a well-formed XOR-MAPPED-ADDRESS and its CANONICAL source
+has a table entry — nothing else is looked at; it records the value under that key, releases exactly the
+calls blocked on that key, each with that value; a datagram it does not take changes nothing of the layer;
+no other table entry is ever touched. -/
+theorem C12_uni_intercept (ttl : Nat) (ops : List UOp) (src : Addr) (k : Kind) (x : XView) (pid : Nat) :
+    (∀ a v, (IceModel.UniMux.step (uafter ttl ops) (.inbound src k x pid)).2.fx.learned = some (a, v) ↔
+        (uafter ttl ops).base.closed = false ∧ decodable k = true ∧ x.xa = .value v ∧ a = canonAddr src
+          ∧ ((uafter ttl ops).xmap (canonAddr src)).isSome = true)
+    ∧ (∀ v, (IceModel.UniMux.step (uafter ttl ops) (.inbound src k x pid)).2.fx.learned = some (canonAddr src, v) →
+        (IceModel.UniMux.step (uafter ttl ops) (.inbound src k x pid)).2.fx.woke
+            = (blockedOn (uafter ttl ops) (canonAddr src)).map (fun i => (i, WRes.ok v))
+        ∧ ∃ e, (uafter ttl ops).xmap (canonAddr src) = some e ∧
+            (IceModel.UniMux.step (uafter ttl ops) (.inbound src k x pid)).1.xmap (canonAddr src)
+              = some { e with addr := some v, signalled := true })
+    ∧ ((IceModel.UniMux.step (uafter ttl ops) (.inbound src k x pid)).2.fx.learned = none →
+        (IceModel.UniMux.step (uafter ttl ops) (.inbound src k x pid)).2.fx.woke = []
+        ∧ (IceModel.UniMux.step (uafter ttl ops) (.inbound src k x pid)).1.xmap = (uafter ttl ops).xmap
+        ∧ (IceModel.UniMux.step (uafter ttl ops) (.inbound src k x pid)).1.waiter = (uafter ttl ops).waiter)
+    ∧ (∀ b, b ≠ canonAddr src →
+        (IceModel.UniMux.step (uafter ttl ops) (.inbound src k x pid)).1.xmap b = (uafter ttl ops).xmap b) := by
+  have hx := (C12_uni_invariant ttl ops).2
+  generalize uafter ttl ops = m at hx ⊢
+  show (∀ a v, (IceModel.UniMux.inbound m src k x pid).2.fx.learned = some (a, v) ↔ _)
+    ∧ (∀ v, (IceModel.UniMux.inbound m src k x pid).2.fx.learned = some (canonAddr src, v) →
+        (IceModel.UniMux.inbound m src k x pid).2.fx.woke = _
+        ∧ ∃ e, m.xmap (canonAddr src) = some e ∧ (IceModel.UniMux.inbound m src k x pid).1.xmap (canonAddr src) = _)
+    ∧ ((IceModel.UniMux.inbound m src k x pid).2.fx.learned = none →
+        (IceModel.UniMux.inbound m src k x pid).2.fx.woke = []
+        ∧ (IceModel.UniMux.inbound m src k x pid).1.xmap = m.xmap
+        ∧ (IceModel.UniMux.inbound m src k x pid).1.waiter = m.waiter)
+    ∧ (∀ b, b ≠ canonAddr src → (IceModel.UniMux.inbound m src k x pid).1.xmap b = m.xmap b)
+  rw [inbound_fx, inbound_xmap, inbound_waiter]
+  rcases Bool.eq_false_or_eq_true m.base.closed with hc | hc
+  · rw [if_pos hc, if_pos hc, if_pos hc]
+    refine ⟨fun a v => ⟨fun h => (by cases h), fun h => (by rw [hc] at h; cases h.1)⟩, fun v h => (by cases h),
+      fun _ => ⟨rfl, rfl, rfl⟩, fun _ _ => rfl⟩
+  · have hn : ¬ m.base.closed = true := by simp [hc]
+    rw [if_neg hn, if_neg hn, if_neg hn]
+    refine ⟨fun a v => ⟨fun h => ⟨hc, (tap_learned_iff m src k x a v).mp h⟩, fun h => (tap_learned_iff m src k x a v).mpr h.2⟩,
+      ?_, ?_, fun b hb => tap_xmap_other m src k x b hb⟩
+    · intro v h
+      exact ⟨tap_woke m hx src k x v h, tap_xmap_self m src k x v h⟩
+    · intro h
+      rw [tap_none m src k x h]
+      exact ⟨rfl, rfl, rfl⟩
+
+/-- **no cross-ufrag on the universal mux** — unchanged by the layer: a connection that receives a datagram
+without being the last writer to its source was handed out (by `GetConn`, or by `GetConnForURL` under the key
+`ufrag ++ url`) for exactly the text before the first `:` of the USERNAME and the family of the source. -/
+theorem C12_uni_no_cross_ufrag (ttl : Nat) (ops : List UOp) (src : Addr) (k : Kind) (x : XView) (pid c : Nat)
+    (hd : (IceModel.UniMux.step (uafter ttl ops) (.inbound src k x pid)).2.main = .base (.delivered c))
+    (hw : (hist (projAll ops)).lastW (endpoint src) ≠ some c) :
+    ∃ n, k = .stunUser n ∧ (hist (projAll ops)).ckey c = (ufragOf n, srcIsV6 src) := by
+  refine C12_no_cross_ufrag (projAll ops) src k pid c ?_ hw
+  have : (IceModel.UniMux.inbound (uafter ttl ops) src k x pid).2.main = .base (.delivered c) := hd
+  rw [inbound_main, C12_uni_embedded] at this
+  injection this
+
+/-- **what the layer takes — partial.**  FULL statement (the property text: the layer may take only what is
+addressed to itself):
+
+  `learned = some (a, v) → answerOf (uhist ttl ops) src k x = some v`
+
+i.e. the datagram is the success response, with the transaction id of the layer's own latest and still
+unanswered discovery request to that source.  It is FALSE of the code (`C12_uni_consumed_witness`).  What
+holds: a datagram is taken only if `GetXORMappedAddr` was called — at some time, answered or not, expired
+or not — for a server with the same transport address. -/
+theorem C12_uni_consumed_partial (ttl : Nat) (ops : List UOp) (src : Addr) (k : Kind) (x : XView) (pid : Nat)
+    (a : Addr) (v : Nat)
+    (h : (IceModel.UniMux.step (uafter ttl ops) (.inbound src k x pid)).2.fx.learned = some (a, v)) :
+    ∃ srv d, UOp.xorStart srv d ∈ ops ∧ endpoint srv = endpoint src := by
+  obtain ⟨_, _, _, _, h5⟩ := ((C12_uni_intercept ttl ops src k x pid).1 a v).mp h
+  cases he : (uafter ttl ops).xmap (canonAddr src) with
+  | none => rw [he] at h5; cases h5
+  | some e =>
+    have hk := ((C12_uni_invariant ttl ops).2.key _ e he).2
+    rcases (mem_started_iff ops _ (xinv_init ttl) (canonAddr src)).mp hk with h0 | ⟨srv, d, h1, h2⟩
+    · cases h0
+    · exact ⟨srv, d, h1, (canon_eq_iff srv src).mp h2⟩
+
+private def srvS : Addr := { ip := { is4 := true, hi := 0, lo := 168361985, zone := [] }, port := 3478 }
+private def srvSmapped : Addr := { ip := { is4 := false, hi := 0, lo := 281470850105345, zone := [] }, port := 3478 }
+private def xOwn (v : Nat) : XView := { cls := .success, tid := .own, xa := .value v }
+private def xForeign (v : Nat) : XView := { cls := .success, tid := .foreign, xa := .value v }
+private def xRequest (v : Nat) : XView := { cls := .request, tid := .foreign, xa := .value v }
+
+/-- the full statement fails: with one discovery pending, a Binding success response with a FOREIGN
+transaction id from the server's address is taken (and a second one after the answer, and a request) -/
+theorem C12_uni_consumed_witness :
+    ¬ (∀ (ttl : Nat) (ops : List UOp) (src : Addr) (k : Kind) (x : XView) (pid : Nat) (a : Addr) (v : Nat),
+        (IceModel.UniMux.step (uafter ttl ops) (.inbound src k x pid)).2.fx.learned = some (a, v) →
+        answerOf (uhist ttl ops) src k x = some v) := by
+  intro h
+  have := h 1000 [.xorStart srvS 500] srvS .stunNoUser (xForeign 9) 1 srvS 9 (by decide)
+  revert this
+  decide
+
+/-- … and what the layer takes is ALSO delivered when a connection owns the source: "at most one consumer"
+fails for the layer's own answer -/
+theorem C12_uni_both_witness :
+    ¬ (∀ (ttl : Nat) (ops : List UOp) (src : Addr) (k : Kind) (x : XView) (pid : Nat),
+        (IceModel.UniMux.step (uafter ttl ops) (.inbound src k x pid)).2.fx.learned.isSome = true →
+        (IceModel.UniMux.step (uafter ttl ops) (.inbound src k x pid)).2.main = .base .dropped) := by
+  intro h
+  have := h 1000 [.getConnForURL uA [115] false, .base (.writeTo 0 srvS), .xorStart srvS 500] srvS .stunNoUser (xOwn 7) 1
+    (by decide)
+  revert this
+  decide
+
+/-- **the monitor on the model.** On every trace of the model the universal-mux monitor never reports a clause
+of the base monitor (`dispatch` / `no_cross_ufrag` / `after_removal` / `faithful`): whatever it objects to is
+a clause about the layer. -/
+theorem C12_uni_monitor_base_clauses (ttl : Nat) (ops : List UOp) (w : String) :
+    Verdict.base w ∉ IceSpec.C12Uni.verdicts UState.init (utrace ttl ops) := by
+  intro hm
+  exact (usim_run ops (IceModel.UniMux.init ttl) UState.init inv_init sim_init).2.2 _ hm
+
+/-! ## non-vacuity for the universal mux -/
+
+private def isUni : Verdict → Bool
+  | .uni _ => true
+  | _ => false
+
+/-- a clean discovery: request, the server's own answer through the IPv4-mapped alias of its address, a second
+call served from the table, expiry, a call that times out — accepted by the monitor, clause by clause -/
+example : IceSpec.C12Uni.monitor (utrace 1000 [.xorStart srvS 500, .xorStart srvSmapped 300,
+      .inbound srvSmapped .stunNoUser (xOwn 7) 1, .xorStart srvS 0, .tick 1001, .xorStart srvS 200, .tick 200]) = none := by
+  decide
+
+example : (utrace 1000 [.xorStart srvS 500, .xorStart srvSmapped 300, .inbound srvSmapped .stunNoUser (xOwn 7) 1,
+      .xorStart srvS 0, .tick 1001, .xorStart srvS 200, .tick 200]).map Prod.snd
+    = [{ main := .started 0 true }, { main := .started 1 true },
+       { main := .base .dropped, fx := { learned := some (srvS, 7), woke := [(0, .ok 7), (1, .ok 7)] } },
+       { main := .started 2 false, fx := { woke := [(2, .ok 7)] } }, { main := .ticked },
+       { main := .started 3 true }, { main := .ticked, fx := { woke := [(3, .timeout)] } }] := by decide
+
+/-- the monitor objects to the model exactly where the code leaves the property text: foreign transaction id,
+a request carrying the attribute, a second answer, and the answer also delivered -/
+example : ((IceSpec.C12Uni.verdicts UState.init (utrace 1000 [.xorStart srvS 500,
+      .inbound srvS .stunNoUser (xForeign 9) 1])).map isUni) = [false, true] := by decide
+example : ((IceSpec.C12Uni.verdicts UState.init (utrace 1000 [.xorStart srvS 500,
+      .inbound srvS .stunNoUser (xRequest 9) 1])).map isUni) = [false, true] := by decide
+example : ((IceSpec.C12Uni.verdicts UState.init (utrace 1000 [.xorStart srvS 500,
+      .inbound srvS .stunNoUser (xOwn 7) 1, .inbound srvS .stunNoUser (xOwn 8) 2])).map isUni) = [false, false, true] := by decide
+example : ((IceSpec.C12Uni.verdicts UState.init (utrace 1000 [.getConnForURL uA [115] false, .base (.writeTo 0 srvS),
+      .xorStart srvS 500, .inbound srvS .stunNoUser (xOwn 7) 1])).map isUni) = [false, false, false, true] := by decide
+
+/-- hypotheses of `C12_uni_no_cross_ufrag` and `C12_uni_consumed_partial` are satisfiable; a datagram from a
+server address that the layer does not take is dispatched by ufrag like any other -/
+example : (IceModel.UniMux.step (uafter 1000 [.getConnForURL uA [] false, .xorStart x4 500]) (.inbound x4 (.stunUser userA) XView.plain 1)).2
+    = { main := .base (.delivered 0) } := by decide
+example : (IceModel.UniMux.step (uafter 1000 [.xorStart srvS 500]) (.inbound srvSmapped .stunNoUser (xOwn 7) 1)).2.fx.learned
+    = some (srvS, 7) := by decide
 
 end IceProps.C12
